@@ -16,7 +16,11 @@ void h_u_genmerge_b(void)
     cJSON *from, *to, *patch, *res; int v[6], i;
     VF_INIT();
     global_hooks.allocate = vf_alloc; global_hooks.deallocate = vf_free; global_hooks.reallocate = NULL;
+#ifdef GM_CONCRETE   /* fully concrete scenario: CBMC executes the real code on one input (memory safety, ledger, round trip on that input only) */
+    for (i = 0; i < 6; i++) { v[i] = (i * 7 + GM_CONCRETE) % 3; }
+#else
     for (i = 0; i < 6; i++) { v[i] = nondet_int(); __CPROVER_assume(v[i] >= 0 && v[i] <= 2); }
+#endif
 #if GM_SCEN == 0      /* flat objects: common key, key only in from, key only in to (unsorted on purpose) */
     from = obj(0); append(from, num('b', v[0])); append(from, num('a', v[1]));
     to = obj(0); append(to, num('a', v[2])); append(to, num('c', v[3]));
@@ -27,6 +31,9 @@ void h_u_genmerge_b(void)
     from = obj(0); append(from, num('a', v[0]));
     to = (v[5] == 0) ? num(0, v[1]) : obj(0);
     if (v[5] != 0) append(to, num('a', v[2]));
+#elif GM_SCEN == 4    /* nested objects where case-insensitive and byte order of the keys disagree ("a" < "B" only when case is folded) */
+    from = obj(0); { cJSON *n = obj('k'); append(n, num('a', v[0])); append(n, num('B', v[1])); append(from, n); }
+    to = obj(0); { cJSON *n = obj('k'); append(n, num('B', v[1])); append(to, n); }
 #else                 /* nested object replaced by a number, and a new nested object */
     from = obj(0); { cJSON *n = obj('k'); append(n, num('a', v[0])); append(from, n); }
     to = obj(0); append(to, num('k', v[1])); { cJSON *n = obj('m'); append(n, num('x', v[2])); append(to, n); }
